@@ -141,6 +141,19 @@ impl ArcRtt {
     pub fn try_backoff_rtt(&self) {
         self.0.lock().unwrap().try_backoff_rtt();
     }
+
+    /// verification hook (read-only): (latest_rtt, smoothed_rtt, rttvar, min_rtt, has first sample)
+    #[cfg(gmquic_verif)]
+    pub fn verif_fields(&self) -> (Duration, Duration, Duration, Duration, bool) {
+        let g = self.0.lock().unwrap();
+        (
+            g.latest_rtt,
+            g.smoothed_rtt,
+            g.rttvar,
+            g.min_rtt,
+            g.first_rtt_sample.is_some(),
+        )
+    }
 }
 
 #[cfg(test)]
